@@ -1,6 +1,6 @@
 SPECIFICATION Spec
 CONSTANTS
-  NCalls = 21
+  NCalls = 24
   MaxLen = 4
 INVARIANT ModesRestored
 INVARIANT NoLeak
